@@ -458,6 +458,15 @@ fn check_tool(
         ("out_explicit2.dat", Some("BigWig"), true),
     ];
     for (name, ty, is_bw) in outputs {
+        let prefilled = name == "out.bedGraph" || name == "out.bw";
+        if prefilled {
+            // these two paths already hold an older, longer result (the other three are fresh)
+            let mut old = String::new();
+            for k in 0..3000u32 {
+                old.push_str(&format!("zzStale\t{}\t{}\t7.5\n", k * 10, k * 10 + 5));
+            }
+            std::fs::write(p(name), old).map_err(|e| e.to_string())?;
+        }
         let mut args = vec![merge.clone(), p(name)];
         args.extend(common.iter().cloned());
         if let Some(t) = ty {
@@ -468,6 +477,9 @@ fn check_tool(
         let what = format!("bigwigmerge -> {}{}", name, ty.map(|t| format!(" (--output-type {})", t)).unwrap_or_default());
         if rc != 0 && !want.is_empty() {
             return Err(format!("{} failed (rc {}): {}", what, rc, e));
+        }
+        if rc != 0 && prefilled {
+            continue; // nothing to merge and the tool said so: what lies at the path is the older file
         }
         if !std::path::Path::new(&p(name)).exists() {
             if want.is_empty() {
@@ -512,7 +524,7 @@ impl Prop for C15 {
         "LIBRARY: 1..=6 streams of sorted disjoint values on one chromosome, positions biased to 0 and to the 50 000 / 100 000 work-window boundaries, very different stream lengths, cancelling +-v, explicit zeros; \
          dyadic-valued cases are compared exactly, arbitrary finite values within 4 ulp(f32) of the sum of magnitudes; oracle for merge_sections_many: sorted, non-overlapping, positive lengths, per base the f32 of the \
          f64 sum in stream order, absent exactly where no stream has data or the sum is zero; merge_into on overlapping pairs: pieces tile the union with the per-base sum; fill / fill_start_to_end: gapless tiling, originals unchanged and in order, only 0.0 added in former gaps. \
-         TOOL: 1..=4 bigWigs written with the library (chromosomes missing from some, values starting at base 0), bigwigmerge with clip / adjust / threshold to out.bedGraph, out.bw, out.bigWig and via --output-type; \
+         TOOL: 1..=4 bigWigs written with the library (chromosomes missing from some, values starting at base 0), bigwigmerge with clip / adjust / threshold to out.bedGraph, out.bw, out.bigWig and via --output-type (the first two paths already hold an older, longer file); \
          every base must carry min(clip, sum) + adjust iff that is > threshold and the sum is non-zero; all outputs agree. \
          non-trivial = a value crossing a 50 000 boundary with >= 2 streams overlapping there (library) / a value starting at base 0 (tool); distinct = distinct case JSON"
             .into()
